@@ -809,6 +809,18 @@ impl<'a> RefWriter<'a> {
                     ents.insert(lid.0, Ent::InUse(off, 0));
                 }
             }
+            // NOT legal PDF (C08 only): further cross-reference rows, under numbers of their own, that point at a
+            // second object carrying the SAME header number as a real object but other content - a loader that keys
+            // objects by their header sees two candidates for one number, reached through different rows
+            if self.ghost_objects && !plain.is_empty() {
+                for _ in 0..1 + self.ch.rng.usize_below(2) {
+                    let victim = *self.ch.rng.pick(&plain);
+                    let row = self.alloc_num(&mut next_free_num, &mut gap_nums);
+                    w.container_ids.insert(row);
+                    let off = self.indirect(victim, &RObj::Str(format!("copy of {} reached through row {}", victim.0, row).into_bytes(), false), None);
+                    ents.insert(row, Ent::InUse(off, victim.1));
+                }
+            }
             for n in ents.keys() {
                 all_nums.insert(*n);
             }
